@@ -69,6 +69,7 @@ pub fn collide_case(seed: u64, label: &str, index: u64) -> HistoryCase {
         raw_texts: None,
         across_threads: false,
         failed_parse_first: false,
+            render_between: false,
     }
 }
 
@@ -862,11 +863,19 @@ pub fn run_c06(thorough: bool, seed: u64, shards: usize) -> (Report, String) {
                 }
             };
             check_c06(&case, &mut rep);
+            // a failing reader in the middle of an extension: Err, or Ok with exactly the union schema
+            if k % 20 == 3 {
+                let texts = case.texts();
+                if texts.iter().map(|t| t.len()).sum::<usize>() <= 6000 {
+                    let mut fr = Rng::derive(seed, "C06-faults", idx);
+                    crate::fault::sweep(&texts, &mut fr, 12, &mut rep, &case.origin);
+                }
+            }
         }
         rep
     });
     let rule = format!(
-        "{} histories of 2..6 documents with a common root (a quarter drawn from the {} exhaustively enumerated tiny documents, the rest random tiny/general profiles). For each: monotonicity checked after EVERY extension step; element-less inputs (empty, blanks, comment only, prolog only, plain text, PI) interleaved at random steps must leave the output unchanged; the final schema must equal the reference inference over the union; every permutation (k <= 4) or 6 sampled ones (k > 4) must give the same canonical schema; each document supplied a second time at a random later position must not change it; a damaged extension (fault confirmed by the C08 flat-pass oracle) must return Err. Canonical schema = fields by serde name, Option, Vec, text flag, String typing, nesting (identifiers, struct names and order deliberately excluded). Non-trivial: >= 2 documents and > 1 position; distinct by final canonical schema.",
+        "{} histories of 2..6 documents with a common root (a quarter drawn from the {} exhaustively enumerated tiny documents, the rest random tiny/general profiles). For each: monotonicity checked after EVERY extension step; element-less inputs (empty, blanks, comment only, prolog only, plain text, PI) interleaved at random steps must leave the output unchanged; the final schema must equal the reference inference over the union; every permutation (k <= 4) or 6 sampled ones (k > 4) must give the same canonical schema; each document supplied a second time at a random later position must not change it; a damaged extension (fault confirmed by the C08 flat-pass oracle) must return Err; every 20th history is supplied again through a BufRead reporting an io::Error (seven kinds once or for good, Interrupted once) at 12 byte offsets of one step: Err, or Ok rendering byte-identically to the fault-free extension, and a fault that never clears before the root element ends must be Err. Canonical schema = fields by serde name, Option, Vec, text flag, String typing, nesting (identifiers, struct names and order deliberately excluded). Non-trivial: >= 2 documents and > 1 position; distinct by final canonical schema.",
         n, na
     );
     (rep, rule)
